@@ -24,6 +24,8 @@ GENFILE = (" Further tie (regenerated on every run): translate/file2coq.py trans
 GENH11 = (" Further tie (regenerated on every run): translate/h112coq.py translates h11's ReceiveBuffer (__init__, __iadd__, _extract, maybe_extract_lines) AS INSTALLED and pyp0f's copy_buffer; "
           "coq/Gen/GenH11P.v proves the translation equal to the model's extract_lines for EVERY byte string (the assert in the library is unreachable, the copy is consumed by exactly the head, a refusal keeps the data) "
           "and composes it with the translated read_payload (C07_translated_read_payload_h11); what stays assumed is the meaning of the one regular expression b'\\n\\r?\\n'.")
+GENRE = (" Further tie (regenerated on every run): translate/re2coq.py reads the regular expressions the code uses from the CURRENT sources, has CPython's own re._parser parse them and emits them as terms of a small generic regex AST; "
+         "coq/Gen/GenReP.v proves against the generic relational semantics of Gen/GenReLib.v that the recognisers the other ties bind them to are exactly what .match / .split / .search denote (and that the match is unique), so those bindings are theorems, not assumptions.")
 GENEFF = (" Further tie (regenerated on every run): translate/eff2coq.py derives from ALL modules of /repo's CURRENT source which caller-owned and module-level objects each public call may "
           "write (fail-closed may-write analysis); coq/Gen/GenEffP.v proves from the emitted data that the fingerprint calls write nothing, that no call writes a module-level object other than the "
           "random generator, that Database.load writes only its own object and the database readers nothing (section 16g of DESIGN.md).")
@@ -91,15 +93,15 @@ CLAIMED = {
  "C07": dict(text="Coq theorems: for every head written as lines with CRLF or bare LF per line followed by a blank line and arbitrary body bytes the lines are "
                   "recovered; request/status line -> direction and minor digit; header fields (names as sent, values stripped, any number of folded "
                   "continuation lines appended) are recovered in order; whole-message round trip; rejections: unterminated head, other method, other "
-                  "version (exact characterisation of accepted version tokens), no colon, empty name. " + TIE + GENHTTPX + GENH11,
+                  "version (exact characterisation of accepted version tokens), no colon, empty name. " + TIE + GENHTTPX + GENH11 + GENRE,
              note="Trusted: as C01; h11's maybe_extract_lines: the hand model ('lines before the first LF-terminated blank piece') is proved equal to a translation of the INSTALLED "
-                  "library source (translate/h112coq.py, Gen/GenH11P.v) - assumed: the translator's reading and the meaning of the regular expression b'\\n\\r?\\n' - and exercised "
+                  "library source (translate/h112coq.py, Gen/GenH11P.v) - assumed: the translator's reading; the regular expression b'\\n\\r?\\n' is tied to its recogniser by Gen/GenReP.v over the generic regex semantics of Gen/GenReLib.v - and exercised "
                   "by the correspondence on every run. No axioms.",
              tech="Coq proof (render/read round trip, rejection lemmas) + extracted-model differential correspondence incl. single-defect corruptions", ref="DESIGN.md section 4 C07"),
  "C09": dict(text="Coq theorems: after a successful load each section holds, in file order, exactly the sig lines a state-free scanner attributes to it "
                   "(line number, most recent label with sys, raw text, parsed signature), len(db) = number of sig lines, also with repeated section headers "
                   "(induction over lines); accepted TCP signatures lie in the documented ranges; layout / quirk / label texts denote what they say "
-                  "(printer-parser round trips). " + TIE + GENSIG + GENFILE + GENHTTPX + " The shipped p0f.fp is one of the cases.",
+                  "(printer-parser round trips). " + TIE + GENSIG + GENFILE + GENHTTPX + GENRE + " The shipped p0f.fp is one of the cases.",
              note="Trusted: as C01; Python string primitives (split/partition/strip/int/encode) are modelled over code points (Unicode 15.0 white-space / digit tables) and exercised by the correspondence; the print/parse round trips of "
                   "whole TCP and HTTP signature texts are proved for printable signatures (C09_sig_roundtrip, C09_http_sig_roundtrip). No axioms.",
              tech="Coq proof (parser = scanner refinement by induction) + extracted-model differential correspondence on generated files", ref="DESIGN.md section 4 C09"),
@@ -188,7 +190,7 @@ def main():
                            "level_claimed": {"category": "proof", "text": c["text"], "design_ref": c["ref"]},
                            "level_note": c["note"], "technique": c["tech"]})
     m = {"version": 1,
-         "setup_cmd": "cd coq && coq_makefile -f _CoqProject -o Makefile && timeout 3000 make -j16 && cd ../ocaml && make && cd .. && /venv/bin/python -c \"from harness import core; print(core.gen_tie()['ok'], core.gen_tie_imp()['ok'], core.gen_tie_sig()['ok'], core.gen_tie_file()['ok'], core.gen_tie_httpx()['ok'], core.gen_tie_eff()['ok'], core.gen_tie_h11()['ok'])\"",
+         "setup_cmd": "cd coq && coq_makefile -f _CoqProject -o Makefile && timeout 3000 make -j16 && cd ../ocaml && make && cd .. && /venv/bin/python -c \"from harness import core; print(core.gen_tie()['ok'], core.gen_tie_imp()['ok'], core.gen_tie_sig()['ok'], core.gen_tie_file()['ok'], core.gen_tie_httpx()['ok'], core.gen_tie_eff()['ok'], core.gen_tie_h11()['ok'], core.gen_tie_re()['ok'])\"",
          "hooks": {"guard": "PYP0F_VERIF",
                    "enable": "no source hooks: harness/worker.py replaces time.time_ns / random.* / builtins.open before importing pyp0f; PYTHONPATH=/repo",
                    "baseline_off_cmd": "cd /repo && /venv/bin/python -m pytest -q -p no:cacheprovider --timeout=900",
